@@ -156,6 +156,8 @@ class GramEval:
             env = {}
             for name, v in zip(a["arg_names"], vals):
                 if name and name != "_":
+                    if isinstance(v, Num) and getattr(v, "look", None) is None:
+                        v = Num(v.ty, p_var(name), v.src)  # polynomials are written over the action's own argument names
                     env[name] = v
             q2 = q.fork()
             q2.env = env
